@@ -37,5 +37,6 @@ def run(ctx, replay=None):
         behs += b
     path = ctx.write_ndjson("behaviours.ndjson", behs)
     ctx.go_test("cctfe", run="TestChainStore$", env={"VERIF_BEHAVIOURS": path}, timeout=3000)
+    ctx.go_test("cctfe", run="TestChainStoreBackendFaults$", timeout=600, name="backendfaults")
     ctx.go_test("cctfe", run="TestChainStoreConcurrent$", env={"VERIF_ROUNDS": ctx.pick(6, 40)}, race=True, timeout=3000,
                 name="concurrent")
